@@ -624,6 +624,43 @@ func (idx *Index) Update(key []byte, location types.Block) error {
 	return nil
 }
 
+// UpdateIf updates the location of a key like Update, but only if the index
+// currently names the location cur for that key. The check and the update are
+// one critical section. It reports whether the location was updated.
+func (idx *Index) UpdateIf(key []byte, cur, location types.Block) (bool, error) {
+	// Get record list and bucket index
+	bucket, err := idx.getBucketIndex(key)
+	if err != nil {
+		return false, err
+	}
+
+	// The key does not need the prefix that was used to find its bucket. For
+	// simplicity only full bytes are trimmed off.
+	indexKey := stripBucketPrefix(key, idx.sizeBits)
+
+	idx.bucketLk.Lock()
+	defer idx.bucketLk.Unlock()
+	records, err := idx.getRecordsFromBucket(bucket)
+	if err != nil {
+		return false, err
+	}
+	if records == nil {
+		return false, nil
+	}
+
+	// Read the record list to find the key and position.
+	r := records.GetRecord(indexKey)
+	if r == nil || r.Block != cur {
+		return false, nil
+	}
+	// Update key in position.
+	newData := records.PutKeys([]KeyPositionPair{{r.Key, location}}, r.Pos, r.NextPos())
+
+	idx.outstandingWork += types.Work(len(newData) + BucketPrefixSize + sizePrefixSize)
+	idx.nextPool[bucket] = newData
+	return true, nil
+}
+
 // Remove removes a key from the index.
 func (idx *Index) Remove(key []byte) (bool, error) {
 	// Get record list and bucket index
